@@ -2,6 +2,7 @@ package props
 
 import (
 	"go/ast"
+	"go/constant"
 	"go/token"
 	"go/types"
 	"sort"
@@ -526,10 +527,24 @@ func c06GroupID(c *core.Ctx, models *packages.Package) {
 	isWrite := func(callee *types.Func) bool {
 		return callee != nil && (callee.Name() == "WriteString" || callee.Name() == "WriteRune" || callee.Name() == "WriteByte") && core.RecvTypeName(callee) == "Builder"
 	}
+	// F14: a helper of the package that writes one part with the delimiters escaped (verified below)
+	escWriters := map[*types.Func]map[byte]bool{}
+	for _, f := range core.AllFuncs(models) {
+		if f.Decl.Recv == nil {
+			if o, ok := info.Defs[f.Decl.Name].(*types.Func); ok {
+				if set := c06EscapingWriter(info, f); set != nil {
+					escWriters[o] = set
+				}
+			}
+		}
+	}
 	eng := &an.Engine{Prog: c.P,
 		TrackCall: func(call *ast.CallExpr, callee *types.Func) string {
 			if isWrite(callee) {
 				return callee.Name()
+			}
+			if callee != nil && escWriters[callee] != nil && len(call.Args) == 2 {
+				return "WritePart"
 			}
 			return ""
 		},
@@ -561,8 +576,8 @@ func c06GroupID(c *core.Ctx, models *packages.Package) {
 					s = append(s, "}")
 				case e.Kind == "break" || e.Kind == "continue":
 					s = append(s, e.Kind)
-				case e.Name == "WriteString":
-					a := e.Args[0]
+				case e.Name == "WriteString" || e.Name == "WritePart":
+					a := e.Args[len(e.Args)-1]
 					switch {
 					case a == name:
 						s = append(s, "name")
@@ -603,10 +618,10 @@ func c06GroupID(c *core.Ctx, models *packages.Package) {
 	for _, p := range paths {
 		var nm string
 		for _, e := range p.Events {
-			if e.Name != "WriteString" {
+			if e.Name != "WriteString" && e.Name != "WritePart" {
 				continue
 			}
-			a := e.Args[0]
+			a := e.Args[len(e.Args)-1]
 			if strings.HasPrefix(a, tags+"[") {
 				c.Check(a == tags+"["+nm+"]", "C06.groupid", "ToGroupID#value-of-same-tag", e.Pos, "the value written is %s but the tag name written before it is %s", a, nm)
 			} else if a != name {
@@ -618,12 +633,47 @@ func c06GroupID(c *core.Ctx, models *packages.Package) {
 	dyn := 0
 	escaped := 0
 	var pos token.Pos
+	// the delimiters ToGroupID writes between the parts inside its loop
+	delims := map[byte]bool{}
+	ast.Inspect(fn.Decl.Body, func(n ast.Node) bool {
+		rs, ok := n.(*ast.RangeStmt)
+		if !ok {
+			return true
+		}
+		ast.Inspect(rs.Body, func(m ast.Node) bool {
+			if call, ok := m.(*ast.CallExpr); ok && len(call.Args) == 1 {
+				if f := core.Callee(info, call); isWrite(f) && (f.Name() == "WriteRune" || f.Name() == "WriteByte") {
+					if tv, ok := info.Types[call.Args[0]]; ok && tv.Value != nil {
+						if v, exact := constant.Int64Val(constant.ToInt(tv.Value)); exact && v < 256 {
+							delims[byte(v)] = true
+						}
+					}
+				}
+			}
+			return true
+		})
+		return true
+	})
 	ast.Inspect(fn.Decl.Body, func(n ast.Node) bool {
 		call, ok := n.(*ast.CallExpr)
 		if !ok {
 			return true
 		}
 		f := core.Callee(info, call)
+		if f != nil && escWriters[f] != nil && len(call.Args) == 2 {
+			dyn++
+			pos = call.Pos()
+			all := true
+			for d := range delims {
+				if !escWriters[f][d] {
+					all = false
+				}
+			}
+			if all {
+				escaped++
+			}
+			return true
+		}
 		if f == nil || f.Name() != "WriteString" || !isWrite(f) {
 			return true
 		}
@@ -640,6 +690,7 @@ func c06GroupID(c *core.Ctx, models *packages.Package) {
 		}
 		return true
 	})
+	// the measurement name in front is closed by '\n', which no name contains: it need not be escaped
 	if dyn >= 2 && escaped < dyn-1 {
 		c.Fail("C06.groupid", "ToGroupID#injective", pos, "%d dynamic strings are written raw between ',' and '=' delimiters: tag values containing the delimiters collide (a=\"x,b=y\",b=\"z\" vs a=\"x\",b=\"y,b=z\")", dyn)
 	} else {
@@ -901,4 +952,99 @@ func rootedInField(info *types.Info, x ast.Expr, recv types.Object) bool {
 		}
 		return false
 	}
+}
+
+// c06EscapingWriter: f(buf *strings.Builder, s string) writes s with a set of bytes escaped: a loop over the bytes of s with a
+// switch on s[i] whose case lists constant bytes C and writes a constant escape byte E first, E ∈ C, followed by the byte itself;
+// a fast path that writes s raw is taken only when s contains none of a literal set F ⊇ C. Returns C, or nil.
+func c06EscapingWriter(info *types.Info, f *core.Func) map[byte]bool {
+	if f.Decl.Type.Params == nil || f.Decl.Type.Params.NumFields() != 2 {
+		return nil
+	}
+	sName := an.ParamName(f.Decl.Type, 1)
+	var set map[byte]bool
+	var esc int64 = -1
+	writesByte := false
+	ast.Inspect(f.Decl.Body, func(n ast.Node) bool {
+		loop, ok := n.(*ast.ForStmt)
+		if !ok {
+			return true
+		}
+		for _, st := range loop.Body.List {
+			switch x := st.(type) {
+			case *ast.SwitchStmt:
+				ix, ok := ast.Unparen(x.Tag).(*ast.IndexExpr)
+				if x.Tag == nil || !ok || types.ExprString(ix.X) != sName {
+					continue
+				}
+				for _, cl := range x.Body.List {
+					cc := cl.(*ast.CaseClause)
+					cs := map[byte]bool{}
+					for _, e := range cc.List {
+						if tv, ok := info.Types[e]; ok && tv.Value != nil {
+							if v, exact := constant.Int64Val(constant.ToInt(tv.Value)); exact && v < 256 {
+								cs[byte(v)] = true
+							}
+						}
+					}
+					for _, b := range cc.Body {
+						if es, ok := b.(*ast.ExprStmt); ok {
+							if call, ok := es.X.(*ast.CallExpr); ok && len(call.Args) == 1 {
+								if cal := core.Callee(info, call); cal != nil && (cal.Name() == "WriteByte" || cal.Name() == "WriteRune") {
+									if tv, ok := info.Types[call.Args[0]]; ok && tv.Value != nil {
+										esc, _ = constant.Int64Val(constant.ToInt(tv.Value))
+										set = cs
+									}
+								}
+							}
+						}
+					}
+				}
+			case *ast.ExprStmt:
+				if call, ok := x.X.(*ast.CallExpr); ok && len(call.Args) == 1 {
+					if cal := core.Callee(info, call); cal != nil && cal.Name() == "WriteByte" {
+						if ix, ok := ast.Unparen(call.Args[0]).(*ast.IndexExpr); ok && types.ExprString(ix.X) == sName && set != nil {
+							writesByte = true
+						}
+					}
+				}
+			}
+		}
+		return true
+	})
+	if set == nil || esc < 0 || esc > 255 || !set[byte(esc)] || !writesByte {
+		return nil
+	}
+	// the fast path
+	okFast := true
+	ast.Inspect(f.Decl.Body, func(n ast.Node) bool {
+		call, ok := n.(*ast.CallExpr)
+		if !ok {
+			return true
+		}
+		cal := core.Callee(info, call)
+		if cal == nil || cal.Pkg() == nil || cal.Pkg().Path() != "strings" || !strings.HasPrefix(cal.Name(), "Contains") {
+			return true
+		}
+		if len(call.Args) != 2 || types.ExprString(call.Args[0]) != sName {
+			okFast = false
+			return true
+		}
+		tv, ok := info.Types[call.Args[1]]
+		if !ok || tv.Value == nil || tv.Value.Kind() != constant.String {
+			okFast = false
+			return true
+		}
+		lit := constant.StringVal(tv.Value)
+		for b := range set {
+			if !strings.ContainsRune(lit, rune(b)) {
+				okFast = false
+			}
+		}
+		return true
+	})
+	if !okFast {
+		return nil
+	}
+	return set
 }
